@@ -448,6 +448,245 @@ def gen_earlystop_decisions(rng, hostile):
   return {'decisions': ds, 'metadata': gen_delta(rng, hostile)}
 
 
+# ---------------------------------------------------------------------------
+# edit scripts for *received* objects (from_proto result, then changed through the
+# public API, then converted again). Every op is abstract ('pick' in [0,1) selects
+# among whatever the received object holds), so a script is applicable to any value.
+# ---------------------------------------------------------------------------
+EDIT_OPS_PROBLEM = (['md_delete'] * 4 + ['md_clear_ns'] * 2 + ['md_replace'] + ['md_change'] * 2
+                    + ['md_add'] * 2 + ['param_remove'] * 2 + ['param_add'] + ['param_add_child']
+                    + ['metric_remove'] * 2 + ['metric_add'] + ['metric_flip'])
+EDIT_OPS_STUDY = EDIT_OPS_PROBLEM + ['algorithm', 'algorithm', 'noise', 'stopping', 'stopping',
+                                     'stopping', 'endpoint', 'endpoint']
+
+
+def _simple_child(rng, name, hostile):
+  """A builder-compatible, childless parameter description."""
+  for _ in range(20):
+    p = gen_param(rng, name, 1, 1, hostile)
+    if not _needs_factory(p):
+      break
+  else:
+    p = {'name': name, 'kind': 'DOUBLE', 'scale': 'LINEAR', 'default': None, 'external': None,
+         'children': [], 'lo': 0.0, 'hi': 1.0}
+  _set_via(p, 'builder')
+  return p
+
+
+def gen_edits(rng, hostile, study):
+  """One round of 1..4 edit ops."""
+  ops = []
+  for _ in range(rng.choice([1, 1, 2, 3, 4])):
+    op = rng.choice(EDIT_OPS_STUDY if study else EDIT_OPS_PROBLEM)
+    e = {'op': op, 'pick': rng.random()}
+    if op == 'md_delete':
+      e['how'] = rng.choice(['del', 'pop'])
+    elif op == 'md_clear_ns':
+      e['how'] = rng.choice(['clear', 'del-each'])
+    elif op == 'md_replace':
+      e['parity'] = rng.choice([0, 1, 2])            # 2: replace by an empty Metadata
+    elif op == 'md_change':
+      e['value'] = gen_mdvalue(rng)
+    elif op == 'md_add':
+      e.update(ns=[rng.choice(NS_COMPONENTS) for _ in range(rng.choice([0, 0, 1, 2]))],
+               key=rng.choice(KEYS), value=gen_mdvalue(rng))
+    elif op == 'param_add':
+      # names of added parameters end in '+e': they cannot collide with generated ones
+      e['param'] = gen_param(rng, rng.choice(PARAM_NAMES) + '+e', 0, rng.choice([0, 0, 1]), hostile)
+    elif op == 'param_add_child':
+      e['param'] = _simple_child(rng, rng.choice(PARAM_NAMES) + '+c', hostile)
+    elif op == 'metric_add':
+      e['metric'] = dict((gen_metrics(rng) or [{'goal': 'MINIMIZE', 'safety_threshold': None,
+                                               'min_safe_fraction': None}])[0],
+                         name=rng.choice(METRIC_NAMES) + '+e')
+    elif op == 'algorithm':
+      e['value'] = rng.choice(ALGORITHMS)
+    elif op == 'noise':
+      e['value'] = rng.choice(['OBSERVATION_NOISE_UNSPECIFIED', 'LOW', 'HIGH'])
+    elif op == 'stopping':
+      e['on'] = rng.random() < 0.35
+    elif op == 'endpoint':
+      e['value'] = rng.choice([None, 'localhost:8888', 'other:1', '', 'é:1'])
+    ops.append(e)
+  return ops
+
+
+def gen_edited(rng, hostile, study=True):
+  base = gen_study_config(rng, hostile) if study else gen_problem(rng, hostile)
+  if study and not base['stopping'] and rng.random() < 0.3:
+    base['stopping'] = True
+  return {'base': base,
+          'rounds': [gen_edits(rng, hostile, study) for _ in range(rng.choice([1, 1, 1, 2]))]}
+
+
+def _pick(seq, frac):
+  seq = list(seq)
+  return seq[min(len(seq) - 1, int(frac * len(seq)))] if seq else None
+
+
+def _md_items(md):
+  """[(ns tuple, key)] of every item, in a deterministic order."""
+  out = []
+  for ns in md.namespaces():
+    for k in md.abs_ns(ns):
+      out.append((tuple(ns), k))
+  return sorted(out)
+
+
+def _mdkey(ns, key):
+  return json.dumps([list(ns), key], ensure_ascii=False)
+
+
+def _reserved(ns, key):
+  from vizier._src.service import constants
+  return list(ns) == [constants.PYTHIA_ENDPOINT_NAMESPACE] and key == constants.PYTHIA_ENDPOINT_KEY
+
+
+def apply_edits(obj, ops):
+  """Applies one round of edit ops to a StudyConfig / ProblemStatement in place.
+
+  Only public mutators are used: Metadata item assignment / del / pop / clear, assignment of
+  the metadata / metric_information / algorithm / observation_noise /
+  automated_stopping_config / pythia_endpoint attributes, SearchSpace.pop / add and the
+  add_*_param / select builders. Returns the list of effects that really happened:
+  [effect name, subject] (an op without a target in this object is a no-op).
+  """
+  vz = _vz()
+  effects = []
+  for e in ops:
+    op, frac = e['op'], e['pick']
+    md = obj.metadata
+    if op == 'md_delete':
+      it = _pick([i for i in _md_items(md)], frac)
+      if it is None:
+        continue
+      if e['how'] == 'pop':
+        md.abs_ns(it[0]).pop(it[1])
+      else:
+        del md.abs_ns(it[0])[it[1]]
+      effects.append(['metadata-entry-deleted', _mdkey(*it)])
+    elif op == 'md_clear_ns':
+      items = _md_items(md)
+      ns = _pick(sorted({i[0] for i in items}), frac)
+      if ns is None:
+        continue
+      view = md.abs_ns(ns)
+      keys = list(view)
+      if e['how'] == 'clear':
+        view.clear()
+      else:
+        for k in keys:
+          del view[k]
+      effects.append(['metadata-namespace-emptied', json.dumps(list(ns), ensure_ascii=False)])
+      effects.extend(['metadata-entry-deleted', _mdkey(ns, k)] for k in keys)
+    elif op == 'md_replace':
+      items = _md_items(md)
+      if not items:
+        continue
+      new = vz.Metadata()
+      for j, (ns, k) in enumerate(items):
+        if e['parity'] != 2 and j % 2 == e['parity']:
+          new.abs_ns(ns)[k] = md.abs_ns(ns)[k]
+        else:
+          effects.append(['metadata-entry-deleted', _mdkey(ns, k)])
+      obj.metadata = new
+      effects.append(['metadata-object-replaced', ''])
+    elif op == 'md_change':
+      it = _pick([i for i in _md_items(md) if not _reserved(*i)], frac)
+      if it is None:
+        continue
+      md.abs_ns(it[0])[it[1]] = build_mdvalue(e['value'])
+      effects.append(['metadata-entry-changed', _mdkey(*it)])
+    elif op == 'md_add':
+      if _reserved(e['ns'], e['key']):
+        continue
+      existed = e['key'] in md.abs_ns(e['ns'])
+      md.abs_ns(e['ns'])[e['key']] = build_mdvalue(e['value'])
+      effects.append(['metadata-entry-changed' if existed else 'metadata-entry-added',
+                      _mdkey(e['ns'], e['key'])])
+    elif op == 'param_remove':
+      name = _pick(sorted(p.name for p in obj.search_space.parameters), frac)
+      if name is None:
+        continue
+      obj.search_space.pop(name)
+      effects.append(['parameter-removed', name])
+    elif op == 'param_add':
+      p = e['param']
+      if p['name'] in obj.search_space.parameter_names:
+        continue
+      try:
+        if p.get('via') == 'builder':
+          _add_via_builder(obj.search_space.root, p)
+        else:
+          obj.search_space.add(build_param_config(p))
+      except (ValueError, TypeError):
+        effects.append(['edit-refused', 'param_add'])
+        continue
+      effects.append(['parameter-added', p['name']])
+    elif op == 'param_add_child':
+      parents = sorted(p.name for p in obj.search_space.parameters
+                       if p.type.name in ('CATEGORICAL', 'DISCRETE', 'INTEGER'))
+      name = _pick(parents, frac)
+      if name is None:
+        continue
+      parent = obj.search_space.get(name)
+      if parent.type.name == 'INTEGER':
+        value = int(parent.bounds[0])
+        if abs(value) > 2 ** 53:
+          continue
+      else:
+        value = list(parent.feasible_values)[0]
+      try:
+        sub = obj.search_space.root.select(name, [value])
+        _add_via_builder(sub, e['param'])
+      except (ValueError, TypeError, KeyError):
+        effects.append(['edit-refused', 'param_add_child'])
+        continue
+      effects.append(['child-parameter-added', name])
+    elif op == 'metric_remove':
+      name = _pick(sorted(m.name for m in obj.metric_information), frac)
+      if name is None:
+        continue
+      obj.metric_information = [m for m in obj.metric_information if m.name != name]
+      effects.append(['metric-removed', name])
+    elif op == 'metric_add':
+      if any(m.name == e['metric']['name'] for m in obj.metric_information):
+        continue
+      obj.metric_information.append(build_metric(e['metric']))
+      effects.append(['metric-added', e['metric']['name']])
+    elif op == 'metric_flip':
+      name = _pick(sorted(m.name for m in obj.metric_information), frac)
+      if name is None:
+        continue
+      obj.metric_information = [m.flip_goal() if m.name == name else m
+                                for m in obj.metric_information]
+      effects.append(['metric-goal-flipped', name])
+    elif op == 'algorithm':
+      if obj.algorithm != e['value']:
+        obj.algorithm = e['value']
+        effects.append(['algorithm-changed', 'to-default' if e['value'] in (
+            '', 'ALGORITHM_UNSPECIFIED') else 'to-other'])
+    elif op == 'noise':
+      if obj.observation_noise.name != e['value']:
+        obj.observation_noise = getattr(vz.ObservationNoise, e['value'])
+        effects.append(['noise-changed', 'to-default' if e['value'].endswith('UNSPECIFIED')
+                        else 'to-other'])
+    elif op == 'stopping':
+      if e['on'] and obj.automated_stopping_config is None:
+        obj.automated_stopping_config = vz.AutomatedStoppingConfig.default_stopping_spec()
+        effects.append(['stopping-config-set', ''])
+      elif not e['on'] and obj.automated_stopping_config is not None:
+        obj.automated_stopping_config = None
+        effects.append(['stopping-config-cleared', ''])
+    elif op == 'endpoint':
+      if obj.pythia_endpoint != e['value']:
+        effects.append(['endpoint-cleared' if e['value'] is None else 'endpoint-changed', ''])
+        obj.pythia_endpoint = e['value']
+    else:
+      raise ValueError(op)
+  return effects
+
+
 GENERATORS = {
     'ParameterConfig': lambda rng, h: gen_param(
         rng, pick_name(rng, PARAM_NAMES, set()), 0,
